@@ -1258,7 +1258,7 @@ def main(chk: C.Check, build: C.Build) -> None:
                         "(the lexer gives the token after a comment the comment's start offset)",
                         {"source": src, "extracted_lines": got})
 
-    n_prog = 700 if not thorough else 9000
+    n_prog = 700 if not thorough else 6000
     gen = Gen(rnd, thorough)
     progs: list[list[tuple]] = [list(p) for p in CORPUS]
     for _ in range(n_prog):
@@ -1313,7 +1313,7 @@ def main(chk: C.Check, build: C.Build) -> None:
               "model": "(ws_chars, dec 0%Z)", "replay": {"what": "str.isspace / str.splitlines / str(int) tables"}}]
     for case in cases:
         items.append({"case": case.case_term(), "model": case.model_term(), "replay": case.replay()})
-    C.correspond(chk, "c15", IMPORTS, "", items, what="ExtractI18n.extract+render", shard=60 if not thorough else 150)
+    C.correspond(chk, "c15", IMPORTS, "", items, what="ExtractI18n.extract+render", shard=50)
     C.proofs_verdict(chk, proofs_ok)
 
     chk.coverage.update({
